@@ -151,6 +151,28 @@ func writerTable(c *core.Ctx, fn *ssa.Function) ([]vuRow, string) {
 		}
 		rows = append(rows, vuRow{iv: iv, tag: *tag, width: width, size: -1})
 	}
+	if len(rows) == 0 {
+		// the table may sit in a helper handed the value (putVarUint(&buf, value))
+		for _, ci := range ir.Calls(fn, nil) {
+			h := ci.Common().StaticCallee()
+			if h == nil || h == fn || len(h.Blocks) == 0 || h.Pkg != fn.Pkg {
+				continue
+			}
+			passes := false
+			for _, a := range ci.Common().Args {
+				if ir.Strip(a) == ssa.Value(valP) {
+					passes = true
+				}
+			}
+			if passes {
+				if r2, why := writerTable(c, h); len(r2) > 0 {
+					c.Touch(h)
+					return r2, why
+				}
+			}
+		}
+		return nil, "no block stores the first byte of the encoding"
+	}
 	sort.Slice(rows, func(i, j int) bool { return rows[i].iv.lo < rows[j].iv.lo })
 	return rows, ""
 }
